@@ -34,7 +34,7 @@ Definition sset (k : bytes) (v : option bytes) (s : store) : store :=
 Record mem := mkMem { m_seg : store; m_idx : store; m_ready : bool }.
 Definition mem0 : mem := mkMem [] [] false.
 
-Inductive res := ROk (b : bytes) | RNotFound | RBadRange | RFault.
+Inductive res := ROk (b : bytes) | RNotFound | RBadRange | RFault | RCtx (* the call's context ended: cancelled / deadline exceeded *).
 
 Definition rng := option (Z * Z).            (* *storage.ByteRange, nil = whole object *)
 
@@ -184,3 +184,54 @@ Fixpoint disciplined (d : dual) (cs : list call) : Prop :=
   | [] => True
   | c :: cs' => call_disciplined d c /\ disciplined (fst (dual_step d (c_op c) (c_rf c) (c_pf c))) cs'
   end.
+
+(* ---------- time: the fallback runs under the CALLER's context ---------- *)
+(* A bucket call takes time and honours its context.  [budget] is what is left of the
+   caller's context when the call starts ([None] = no deadline, never cancelled); a
+   planned call returns its outcome after [pl_lat] ([None] = stalls until the context
+   ends), or the context error as soon as the budget runs out.  Times in ms. *)
+Inductive plan_out := POk | PFail | PPartial.       (* PPartial: error together with partial bytes *)
+Record plan := mkPlan { pl_lat : option Z; pl_out : plan_out }.
+
+(* result and elapsed time; [None] = the call never returns (stall without any deadline) *)
+Definition timed_call (budget : option Z) (p : plan) (content : res) : option (res * Z) :=
+  let outcome := match pl_out p with POk => content | _ => RFault end in
+  match budget, pl_lat p with
+  | None, None => None
+  | None, Some l => Some (outcome, l)
+  | Some b, None => Some (RCtx, Z.max 0 b)
+  | Some b, Some l => if b <=? 0 then Some (RCtx, 0) else if l <? b then Some (outcome, l) else Some (RCtx, b)
+  end.
+
+Definition budget_after (budget : option Z) (t : Z) : option Z :=
+  match budget with Some b => Some (b - t) | None => None end.
+
+(* DownloadSegment with time: the replica attempt and the primary fallback both run
+   under the caller's context, so the fallback has whatever budget the replica left *)
+Definition dual_get_seg_timed (d : dual) (k : bytes) (r : rng) (budget : option Z) (rp pp : plan) : option (res * Z) :=
+  match timed_call budget rp (mem_get_seg (d_repl d) k r) with
+  | None => None
+  | Some (a, t1) =>
+      if is_ok a then Some (a, t1) else
+      match timed_call (budget_after budget t1) pp (mem_get_seg (d_prim d) k r) with
+      | None => None
+      | Some (b, t2) => Some (b, t1 + t2)
+      end
+  end.
+
+Definition dual_get_idx_timed (d : dual) (k : bytes) (budget : option Z) (rp pp : plan) : option (res * Z) :=
+  match timed_call budget rp (mem_get_idx (d_repl d) k) with
+  | None => None
+  | Some (a, t1) =>
+      if is_ok a then Some (a, t1) else
+      match timed_call (budget_after budget t1) pp (mem_get_idx (d_prim d) k) with
+      | None => None
+      | Some (b, t2) => Some (b, t1 + t2)
+      end
+  end.
+
+(* the caller's context is still live when the call returns after t *)
+Definition caller_live (budget : option Z) (t : Z) : Prop :=
+  match budget with Some b => t < b | None => True end.
+Definition caller_liveb (budget : option Z) (t : Z) : bool :=
+  match budget with Some b => t <? b | None => true end.
